@@ -256,6 +256,7 @@ type ReaderCase struct {
 	Workers int
 	Jitter  int
 	JSON    bool // titles carry a JSON object and the header parser is on
+	Giant   int  // when > 0 the middle record is a single sequence of this many nucleotides (a genome: several read-buffer extensions)
 }
 
 func init() { evid.Reg("readers", checkReaders) }
@@ -264,6 +265,9 @@ func bigRecs(c ReaderCase) []Rec {
 	recs := make([]Rec, c.NRec)
 	for i := range recs {
 		n := c.SeqLen + i%17
+		if c.Giant > 0 && i == c.NRec/2 {
+			n = c.Giant
+		}
 		s := make([]byte, n)
 		x := uint32(i)*2654435761 + 99
 		for j := range s {
@@ -409,7 +413,15 @@ func TestPropFullReaders(t *testing.T) {
 		}
 		target := rapid.IntRange(1150, 3200).Draw(rt, "kib") * 1024
 		c.NRec = target / perRec
-		evid.Eval("readers", evid.Hash(fmt.Sprintf("%+v", c)), c.Workers >= 2, c, "format:"+c.Format, fmt.Sprintf("workers:%d", c.Workers))
+		if rapid.IntRange(0, 3).Draw(rt, "giant") == 0 {
+			c.Giant = rapid.IntRange(2200, 6500).Draw(rt, "giant_kb") * 1000
+			c.NRec = rapid.IntRange(3, 2000).Draw(rt, "nrec_with_giant")
+		}
+		rcl := []string{"format:" + c.Format, fmt.Sprintf("workers:%d", c.Workers)}
+		if c.Giant > 0 {
+			rcl = append(rcl, "one_record_of_several_MB")
+		}
+		evid.Eval("readers", evid.Hash(fmt.Sprintf("%+v", c)), c.Workers >= 2, c, rcl...)
 		if err := checkReaders(c); err != nil {
 			evid.Fail(rt, "readers", c, err)
 		}
